@@ -81,7 +81,8 @@ def job(j):
     levels, k, limit, seed = j[:4]
     limit2 = j[4] if len(j) > 4 and j[4] else limit
     only = j[5] if len(j) > 5 else None        # asymmetric configuration: only this level is split, the others are single files
-    cfg_s = Config(levels=levels, ndisks=2, splits={l: (k if only is None or l == only else 1) for l in range(levels)}, parity_limit=limit)
+    cfg_s = Config(levels=levels, ndisks=2, splits={l: (k if only is None or l == only else 1) for l in range(levels)}, parity_limit=limit,
+                   splitdirs=True)        # every split file on its own "parity disk" (directory)
     cfg_t = Config(levels=levels, ndisks=2)
     v = []
     steps = 0
@@ -143,6 +144,31 @@ def job(j):
                             chk = Ls.run("check")
                             if chk.rc != 0:
                                 v.append(dict(kind="check-fails-after-split-rebuilt", where=w3, out=chk.text()[-300:]))
+                # the whole parity disk (directory) holding one split is gone, together with a data disk: with a second level fix
+                # --force-device must drop the dead level and rebuild the data from the other one; once the directory is back a plain
+                # fix re-creates the split in place
+                if levels >= 2:
+                    for l in range(levels):
+                        recl = rec[l] if rec[l] is not None else [len(b_) for b_ in bytes0[l]]
+                        for idx in range(len(paths0[l])):
+                            if len(paths0[l]) < 2 or idx >= len(recl) or not recl[idx]:
+                                continue
+                            Ls.restore(S0)
+                            import shutil
+                            pdir = os.path.dirname(paths0[l][idx])
+                            shutil.rmtree(pdir)
+                            F.lose_disk(Ls, "d1")
+                            rf = Ls.run("fix", "--force-device")
+                            w4 = where + " | parity disk of split %d of level %d gone with data disk d1, fix --force-device" % (idx, l)
+                            steps += 1
+                            if rf.rc != 0 or X.tree_equal(Ls, want0):
+                                v.append(dict(kind="data-not-restored-with-a-parity-disk-gone", where=w4, rc=rf.rc, out=rf.text()[-300:]))
+                                continue
+                            os.makedirs(pdir, exist_ok=True)
+                            rf2 = Ls.run("fix")
+                            chk = Ls.run("check")
+                            if rf2.rc != 0 or chk.rc != 0:
+                                v.append(dict(kind="parity-not-rebuilt-after-its-disk-came-back", where=w4, rc=(rf2.rc, chk.rc)))
                 Ls.restore(S0)
                 sz = split_sizes(c)[0] or [len(b_) for b_ in bytes0[0]]
                 idx = max([i for i, s in enumerate(sz) if s] or [0])
